@@ -253,6 +253,20 @@ def _props_check(prop):
     return thms, {"closed": closed, "with_allowed_axioms": sorted(named)}
 
 
+def coqchk_props(prop, timeout=3600):
+    """thorough tiers: re-check the compiled closure of Props/<prop>.vo with the independent checker and
+    require it to report no axioms beyond the allow-list; returns a one-line summary for the evidence"""
+    with Lock("coq-Props-" + prop, shared=True):
+        rc, out = sh(["coqchk", "-silent", "-o", "-Q", "theories", "PK", "PK.Props.%s" % prop], cwd=COQ, timeout=timeout)
+    m = re.search(r"\* Axioms:\s*(.*?)\n\s*\n", out, re.S)
+    axioms = m.group(1).strip() if m else "?"
+    named = [] if axioms == "<none>" else [a.strip() for a in axioms.splitlines() if a.strip()]
+    bad = [a for a in named if a.split()[0] not in ALLOWED_AXIOMS]
+    if rc != 0 or not m or bad:
+        raise Tie("coqchk does not accept the compiled closure of Props/%s without unexpected axioms" % prop, out[-2500:])
+    return "coqchk -o PK.Props.%s: accepted; axioms: %s" % (prop, axioms if named else "<none>")
+
+
 def count_lemmas(files):
     n = 0
     for f in files:
